@@ -58,7 +58,13 @@ impl<F> Stream<F> {
 
     fn flush_changes(&mut self) -> io::Result<()> {
         if let Some(flusher) = self.flusher.take() {
-            flusher.flush_changes(self)?;
+            if let Err(err) = flusher.flush_changes(self) {
+                // The changes are still only in the buffer, so stay marked as
+                // modified; otherwise a later flush would do nothing and
+                // report success.
+                self.flusher = Some(flusher);
+                return Err(err);
+            }
         }
         Ok(())
     }
